@@ -964,7 +964,47 @@ def rule_g(ck, u):
     ck.floor('C20.g', 'sites passing the input on', nsite, 10)
 
 
+def rule_h(ck, u):
+    """C20.h character classes: strchr(table, c) also finds the terminating NUL of the table, so a membership test written
+    with it holds for c == 0 unless the path excludes that value first.  The reader works on length-delimited input, where
+    a NUL octet is an ordinary (and, for the grammar, illegal) character."""
+    eng = sym.Engine(u, sizeof={}, inline=set())
+    n = 0
+    fns = [f for f in u.functions_in_file('sx.c') if u.body(f) is not None]
+    for fn in sorted(fns):
+        body = u.body(fn)
+        if not any(cast.callee_name(c) in ('strchr', 'strrchr', 'index') for c in cast.calls_in(body)):
+            continue
+        try:
+            ps = eng.paths(fn)
+        except (sym.Unsupported, sym.PathLimit) as e:
+            ck.broken('C20.h', fn, cast.where(u.fn(fn)), 'path enumeration: %s' % e)
+            continue
+        bad = None
+        for p in ps:
+            for e in p.calls():
+                if e.name not in ('strchr', 'strrchr', 'index'):
+                    continue
+                n += 1
+                c = e.args[1]
+                while c[0] == 'cast':
+                    c = c[2]
+                facts = eng.path_facts([x for x in p.cond_terms() if not sym.contains(x, e.result)])
+                nz = eng.entails(facts, L(c) + 1) or eng.entails(facts, Lin.const(1) - L(c)) or \
+                    any(x == ('cmp', '!=', c, C(0)) or x == ('cmp', '!=', ('cast', 'int', c), C(0)) for x in p.cond_terms())
+                if not nz:
+                    bad = ('membership test %s(%s, %s) is reached with %s possibly 0: the search finds the table\'s terminator, so the '
+                           'NUL octet belongs to the class (a length-delimited input containing NUL is then read as a symbol)'
+                           % (e.name, fmt(e.args[0]), fmt(e.args[1]), fmt(c)))
+        ck.verdict(bad is None, 'C20.h', fn, cast.where(u.fn(fn)),
+                   'every strchr membership test excludes the NUL octet first' if bad is None else bad)
+    # the symbol-initial class is such a test today; if the idiom disappears altogether there is nothing to decide
+    if n == 0:
+        ck.holds('C20.h', 'no-strchr-classes', UNIT, 'no character class is decided by a string search')
+
+
 def run(ck):
+    ck.rule('C20.h', 'character classes decided by strchr(table, c) exclude c == 0 first (the search finds the terminator)')
     ck.rule('C20.e', 'token table: classification decision list, one parser arm per class with the right failure status, (offset, digit predicate, base) per integer syntax, positional value accumulation, symbol text window')
     ck.rule('C20.a', 'index bounds: every read s[e] in skip_ws, looking_at, parse_symbol, parse_integer_ is entailed below n by the dominating guards (call-site precondition i < n checked in sx_parse_token; backward digit loop in the exception table)')
     ck.rule('C20.b', 'clang static analyzer core.NullDereference reports nothing on sx.c (armed channel; must fire on the kept positive example)')
@@ -1002,3 +1042,4 @@ def run(ck):
     except (sym.Unsupported, sym.PathLimit, _Shape) as e:
         ck.broken('C20.f', 'summaries', UNIT, 'result-summary analysis: %s' % e)
     rule_b(ck, u)
+    rule_h(ck, u)
